@@ -255,8 +255,8 @@ def run_agree(sc):
                 inst.setParam(k, v)
             elif info.structure_factor and k in ("scale", "background"):
                 pass        # hidden for structure factors: fixed at 1 and 0
-            elif ctl and any(k.startswith(q.id) and k[len(q.id):].isdigit() for q in P.kernel_parameters if q.length > 1):
-                pass        # vector elements the multiplicity does not select do not exist in this instance
+            elif ctl:
+                pass        # parameters the multiplicity does not select are hidden from this instance
             else:
                 raise KeyError("sasview wrapper has no parameter " + k)
         return inst.evalDistribution([QX, QY] if is2d else Q1)
